@@ -1,0 +1,17 @@
+//go:build verif
+
+// Contracts for package reactive, read by /verif/engine (govc). Comment-only.
+package reactive
+
+// node: every field is read and written under node.mu, with three documented exceptions that rest on
+// monotonicity (see graph.go): afterInvalidate is not written once invalidated is set (handleInvalidate
+// spawns f instead), afterRelease is not written once released is set, and in is not appended to once
+// released is set (addOut checks to.released under to.mu) - so the unlocked reads in invalidate / release,
+// which happen after the region that set the flag, see a stable value.
+//@ guarded_by node.mu: in, out, invalidated, released, afterInvalidate, afterRelease ; exempt node.invalidate:afterInvalidate, node.release:afterRelease, node.release:in
+
+//@ guarded_by cache.mu: computations
+//@ guarded_by locker.mu: m
+//@ guarded_by dependencySet.mu: dependencies
+//@ guarded_by Rerunner.mu: computation, stop
+//@ guarded_by Rerunner.flushMu: flushed
